@@ -50,6 +50,7 @@ Ltac dtop H :=
   end.
 
 Ltac okinv H := inversion H; subst; clear H.
+Ltac ib H x Hx := apply bind_ok in H; destruct H as (x & Hx & H).
 
 Lemma send_keeps r m r' : send r m = Ok r' -> keeps r r'.
 Proof. unfold send. intros H. inv_bind H. okinv H. reflexivity. Qed.
@@ -651,4 +652,171 @@ Proof.
   - rewrite H. split; [split|]; reflexivity.
   - change (r_term r) with (r_term (r <| r_log := l' |>)) in H.
     apply become_follower_keeps_t in H. exact H.
+Qed.
+
+(* ------------------------------------------------------------------ *)
+(* configuration change / snapshot restore frames *)
+
+Lemma post_conf_change_keeps r r' cs : post_conf_change r = Ok (r', cs) -> keeps r r'.
+Proof.
+  unfold post_conf_change. intros H.
+  set (r0 := r <| r_promotable := voters_contains (conf_of r) (r_id r) |>) in *.
+  assert (K0 : keeps r r0) by reflexivity.
+  dtop H; [okinv H; exact K0|].
+  dtop H; [okinv H; exact K0|].
+  inv_bind H. destruct x as [r1 b]. apply maybe_commit_keeps in Hx.
+  inv_bind H.
+  assert (K2 : keeps r1 x).
+  { destruct b; [apply bcast_append_keeps in Hx0; exact Hx0|].
+    revert Hx0. apply for_each_peer_keeps. intros ra id rb Hf.
+    destruct (get_pr ra id); [|discriminate]. ib Hf y Hy. destruct y as [[rc pc] bc].
+    okinv Hf. apply maybe_send_append_keeps in Hy. exact Hy. }
+  inv_bind H.
+  assert (K3 : keeps x x0).
+  { clear H. destruct (ro_last_pending_request_ctx (r_read_only x)); [|okinv Hx1; apply keeps_refl].
+    destruct (ro_recv_ack (r_read_only x) (r_id x) l) as [ro' acks].
+    destruct acks; [|okinv Hx1; reflexivity].
+    dtop Hx1; [|okinv Hx1; reflexivity].
+    ib Hx1 z Hz. destruct z as [ro2 rss]. apply respond_reads_keeps in Hx1.
+    eapply keeps_trans; [|exact Hx1]. reflexivity. }
+  okinv H.
+  eapply keeps_trans; [exact K0|]. eapply keeps_trans; [exact Hx|].
+  eapply keeps_trans; [exact K2|]. eapply keeps_trans; [exact K3|].
+  destruct (r_lead_transferee x0) as [e|]; [|apply keeps_refl].
+  destruct (voters_contains (conf_of x0) e); reflexivity.
+Qed.
+
+Lemma restore_keeps r s r' b :
+  r_state r = Follower -> restore r s = Ok (r', b) -> keeps r r'.
+Proof.
+  intros Hf. unfold restore. intros H.
+  dtop H; [okinv H; apply keeps_refl|].
+  rewrite Hf in H. cbn [role_eqb negb] in H.
+  dtop H; [okinv H; apply keeps_refl|].
+  inv_bind H.
+  dtop H; [inv_bind H; okinv H; reflexivity|].
+  inv_bind H.
+  destruct (ConfChange.restore _ _) as [[c' ids']|e]; [|discriminate].
+  inv_bind H. destruct x1 as [r1 new_cs].
+  apply post_conf_change_keeps in Hx1.
+  dtop H; [discriminate|]. dtop H; [|discriminate]. dtop H; [discriminate|]. okinv H.
+  eapply keeps_trans; [|eapply keeps_trans; [exact Hx1|reflexivity]]. reflexivity.
+Qed.
+
+Lemma handle_snapshot_keeps r m r' :
+  r_state r = Follower -> handle_snapshot r m = Ok r' -> keeps r r'.
+Proof.
+  intros Hf. unfold handle_snapshot. intros H. inv_bind H. destruct x as [r1 ok].
+  apply restore_keeps in Hx; [|exact Hf].
+  destruct ok; apply send_keeps in H; eapply keeps_trans; eassumption.
+Qed.
+
+(* ------------------------------------------------------------------ *)
+(* leader handlers *)
+
+Lemma handle_append_response_keeps r m r' : handle_append_response r m = Ok r' -> keeps r r'.
+Proof.
+  unfold handle_append_response. intros H. inv_bind H.
+  destruct (get_pr r (m_from m)) as [pr|]; [|okinv H; apply keeps_refl].
+  dtop H.
+  - destruct (maybe_decr_to _ _ _ _) as [pr1 dec]. destruct dec.
+    + apply send_append_to_keeps in H. eapply keeps_trans; [|exact H]. reflexivity.
+    + okinv H. reflexivity.
+  - destruct (maybe_update _ _) as [pr1 upd]. destruct upd; cbn [negb] in H; [|okinv H; reflexivity].
+    inv_bind H. inv_bind H. destruct x1 as [r1 cmt]. apply maybe_commit_keeps in Hx1.
+    inv_bind H. inv_bind H.
+    assert (K2 : keeps r1 x1).
+    { destruct cmt.
+      - destruct (should_bcast_commit r1); [apply bcast_append_keeps in Hx2; exact Hx2|].
+        okinv Hx2. apply keeps_refl.
+      - dtop Hx2; [apply send_append_to_keeps in Hx2; exact Hx2|okinv Hx2; apply keeps_refl]. }
+    apply send_append_aggressively_keeps in Hx3.
+    assert (K4 : keeps x2 r').
+    { destruct (r_lead_transferee x2); [|okinv H; apply keeps_refl].
+      dtop H; [|okinv H; apply keeps_refl].
+      destruct (get_pr x2 (m_from m)); [|discriminate].
+      dtop H; [apply send_timeout_now_keeps in H; exact H|okinv H; apply keeps_refl]. }
+    eapply keeps_trans; [|exact K4]. eapply keeps_trans; [|exact Hx3].
+    eapply keeps_trans; [|exact K2]. eapply keeps_trans; [|exact Hx1]. reflexivity.
+Qed.
+
+Lemma handle_heartbeat_response_keeps r m r' :
+  handle_heartbeat_response r m = Ok r' -> keeps r r'.
+Proof.
+  unfold handle_heartbeat_response. intros H.
+  destruct (get_pr r (m_from m)) as [pr|]; [|okinv H; apply keeps_refl].
+  inv_bind H. inv_bind H.
+  assert (K1 : keeps r x0).
+  { clear H. dtop Hx0.
+    - inv_bind Hx0. destruct x1 as [[ra pa] ba]. okinv Hx0.
+      apply maybe_send_append_keeps in Hx1. exact Hx1.
+    - okinv Hx0. reflexivity. }
+  dtop H; [okinv H; exact K1|].
+  destruct (ro_recv_ack _ _ _) as [ro' acks].
+  destruct acks; [|okinv H; exact K1].
+  dtop H; [|okinv H; exact K1].
+  inv_bind H. destruct x1 as [ro2 rss]. apply respond_reads_keeps in H.
+  eapply keeps_trans; [exact K1|]. eapply keeps_trans; [|exact H]. reflexivity.
+Qed.
+
+Lemma handle_transfer_leader_keeps r m r' : handle_transfer_leader r m = Ok r' -> keeps r r'.
+Proof.
+  unfold handle_transfer_leader. intros H.
+  destruct (get_pr r (m_from m)); [|okinv H; apply keeps_refl].
+  dtop H; [okinv H; apply keeps_refl|].
+  assert (Hc : forall ra, keeps r ra ->
+    (if m_from m =? r_id ra then Ok ra else
+       match get_pr (ra <| r_election_elapsed := 0 |> <| r_lead_transferee := Some (m_from m) |>)
+                    (m_from m) with
+       | None => Panic site_pr_unwrap
+       | Some pr =>
+           if matched pr =? last_index (r_log (ra <| r_election_elapsed := 0 |>
+                                                 <| r_lead_transferee := Some (m_from m) |>))
+           then send_timeout_now (ra <| r_election_elapsed := 0 |>
+                                    <| r_lead_transferee := Some (m_from m) |>) (m_from m)
+           else y <- maybe_send_append (ra <| r_election_elapsed := 0 |>
+                                          <| r_lead_transferee := Some (m_from m) |>)
+                                       (m_from m) pr true ;;
+                let '(r', pr', _) := y in Ok (put_pr r' (m_from m) pr')
+       end) = Ok r' -> keeps r r').
+  { intros ra Ka Hh. dtop Hh; [okinv Hh; exact Ka|].
+    dtop Hh; [|discriminate]. dtop Hh.
+    - apply send_timeout_now_keeps in Hh. eapply keeps_trans; [exact Ka|].
+      eapply keeps_trans; [|exact Hh]. reflexivity.
+    - inv_bind Hh. destruct x as [[rb pb] bb]. okinv Hh.
+      apply maybe_send_append_keeps in Hx. eapply keeps_trans; [exact Ka|].
+      eapply keeps_trans; [|eapply keeps_trans; [exact Hx|]]; reflexivity. }
+  destruct (r_lead_transferee r) as [last|].
+  - dtop H; [okinv H; apply keeps_refl|]. eapply Hc; [|exact H]. reflexivity.
+  - eapply Hc; [|exact H]. apply keeps_refl.
+Qed.
+
+Lemma handle_snapshot_status_keeps r m r' : handle_snapshot_status r m = Ok r' -> keeps r r'.
+Proof.
+  unfold handle_snapshot_status. intros H.
+  destruct (get_pr r (m_from m)); [|okinv H; apply keeps_refl].
+  dtop H; okinv H; reflexivity.
+Qed.
+
+Lemma handle_unreachable_keeps r m r' : handle_unreachable r m = Ok r' -> keeps r r'.
+Proof.
+  unfold handle_unreachable. intros H.
+  destruct (get_pr r (m_from m)); [|okinv H; apply keeps_refl].
+  okinv H. destruct (pstate_eqb _ _); reflexivity.
+Qed.
+
+Lemma filter_conf_changes_keeps : forall ents r info i r' ents' ok,
+  filter_conf_changes r ents info i = (r', ents', ok) -> keeps r r'.
+Proof.
+  induction ents as [|e rest IH]; intros r info i r' ents' ok H; cbn [filter_conf_changes] in H.
+  - okinv H. apply keeps_refl.
+  - dtop H.
+    + destruct (filter_conf_changes r rest _ (i + 1)) as [[ra ea] oa] eqn:E. okinv H.
+      eapply IH; eassumption.
+    + dtop H; [okinv H; apply keeps_refl|].
+      dtop H.
+      * destruct (filter_conf_changes r rest _ (i + 1)) as [[ra ea] oa] eqn:E. okinv H.
+        eapply IH; eassumption.
+      * destruct (filter_conf_changes _ rest _ (i + 1)) as [[ra ea] oa] eqn:E. okinv H.
+        apply IH in E. eapply keeps_trans; [|exact E]. reflexivity.
 Qed.
